@@ -8,6 +8,8 @@ import RsyncModel.Driver.FlistOps
 import RsyncModel.Driver.WireOps
 import RsyncModel.Driver.OptsOps
 import RsyncModel.Driver.SshOps
+import RsyncModel.Driver.DaemonOps
+import RsyncModel.Driver.RootOps
 open Driver
 
 def dispatch (line : String) : String :=
@@ -24,6 +26,8 @@ def dispatch (line : String) : String :=
     else if op == "gen" || op == "genrecv" then genOp fs
     else if ["sum1", "md4", "sumsizes", "gensums", "search", "recvdata"].contains op then deltaOp fs
     else if op.startsWith "ssh" || op == "dispatchclass" then sshOp fs
+    else if op == "daemon" then daemonOp fs
+    else if op == "rootfs" then rootOp fs
     else if op == "optparse" || op == "serveropts" || op == "dispatch" then optsOp fs
     else "bad-op"
 
